@@ -61,7 +61,9 @@ fn main() {
                 "C08" => props::c08::run(tier, seed),
                 "C09" => props::c09::run(tier, seed),
                 "C10" => props::c10::run(tier, seed),
+                "C12" => props::c12::run(tier, seed),
                 "C15" => props::c15::run(tier, seed),
+                "C19" => props::c19::run(tier, seed),
                 "C16" => props::c16::run(tier, seed),
                 "C18" => props::c18::run(tier, seed),
                 "C11" => props::c11::run(tier, seed),
@@ -108,7 +110,9 @@ fn replay(path: &str) -> i32 {
             "C08" => all.extend(props::c08::all_scenarios(tier)),
             "C09" => all.extend(props::c09::all_scenarios(tier)),
             "C10" => all.extend(props::c10::all_scenarios(tier)),
+            "C12" => all.extend(props::c12::all_scenarios(tier)),
             "C15" => all.extend(props::c15::all_scenarios(tier)),
+            "C19" => all.extend(props::c19::all_scenarios(tier)),
             "C16" => all.extend(props::c16::all_scenarios(tier)),
             "C18" => all.extend(props::c18::all_scenarios(tier)),
             "C11" => all.extend(props::c11::all_scenarios(tier)),
